@@ -199,6 +199,26 @@ func (c *Ctx) c08Enforcer(pm *pairModel) {
 		}
 		return false
 	}
+	// takesFront: a helper of the enforcer (not the enforcer itself) that takes list.Front()
+	inF := map[*ssa.Function]bool{}
+	for _, fn := range F {
+		inF[fn] = true
+	}
+	var takesFront func(g *ssa.Function, depth int) bool
+	takesFront = func(g *ssa.Function, depth int) bool {
+		if g == nil || g == E || !inF[g] || depth > 3 {
+			return false
+		}
+		found := false
+		eng.EachInstr(g, func(in ssa.Instruction) {
+			if call, ok := in.(*ssa.Call); ok && g == in.Parent() {
+				if eng.CalleeName(call.Common()) == "(*container/list.List).Front" || takesFront(eng.StaticCallee(call.Common()), depth+1) {
+					found = true
+				}
+			}
+		})
+		return found
+	}
 	guardOK, guardSite := false, ""
 	var guardWhy string
 	for _, fn := range F {
@@ -218,7 +238,7 @@ func (c *Ctx) c08Enforcer(pm *pairModel) {
 			for k := 0; k < 2; k++ {
 				if eng.BlockReaches(b.Succs[k], func(in ssa.Instruction) bool {
 					call, ok := in.(*ssa.Call)
-					return ok && eng.CalleeName(call.Common()) == "(*container/list.List).Front"
+					return ok && (eng.CalleeName(call.Common()) == "(*container/list.List).Front" || takesFront(eng.StaticCallee(call.Common()), 0))
 				}, func(in ssa.Instruction) bool { return in == ssa.Instruction(eng.IfOf(b)) }) != nil {
 					if evictEdge == -1 {
 						evictEdge = k
@@ -257,7 +277,7 @@ func (c *Ctx) c08Enforcer(pm *pairModel) {
 		g := eng.StaticCallee(call.Common())
 		return g != nil && g.Name() == "Size" && eng.InModule(g)
 	}
-	var adds, subs []*ssa.BinOp
+	var adds, subs, helperSubs []*ssa.BinOp
 	for _, fn := range F {
 		eng.EachInstr(fn, func(in ssa.Instruction) {
 			b, ok := in.(*ssa.BinOp)
@@ -270,6 +290,12 @@ func (c *Ctx) c08Enforcer(pm *pairModel) {
 			if b.Op == token.SUB && isSizeCall(b.Y) {
 				subs = append(subs, b)
 			}
+			// curSize -= s.evictOldest(all): the helper reports what it freed
+			if call, ok := eng.StripConv(b.Y).(*ssa.Call); ok && b.Op == token.SUB && !isSizeCall(b.Y) {
+				if g := eng.StaticCallee(call.Common()); g != nil && inF[g] && g != E {
+					helperSubs = append(helperSubs, b)
+				}
+			}
 		})
 	}
 	if len(pushBack) == 1 && len(adds) == 1 && pushBack[0].Parent() == adds[0].Parent() && eng.Dominates(pushBack[0], adds[0]) {
@@ -278,30 +304,67 @@ func (c *Ctx) c08Enforcer(pm *pairModel) {
 		r.Bad("C08/ENFORCER/shape", cons+":add", p.Pos(E.Pos()), "a pushed message is not added to the byte account exactly once (pushes=%d additions=%d)", len(pushBack), len(adds))
 	}
 	// each Remove must have a subtraction dominated by a success test of that removal
+	// success witness: blk is dominated by a `x != nil` edge where x is the Remove result or
+	// the result of the removal helper fed by the removed element
+	successDominates := func(rm *ssa.Call, blk *ssa.BasicBlock) bool {
+		for _, b := range rm.Parent().Blocks {
+			for k := 0; k < len(b.Succs) && len(b.Succs) == 2; k++ {
+				rel, ok := eng.EdgeRel(b, k)
+				if !ok || rel.Op != token.NEQ || !eng.IsNilConst(rel.Y) {
+					continue
+				}
+				if !eng.EdgeDominates(b, k, blk) {
+					continue
+				}
+				if rel.X == ssa.Value(rm) {
+					return true
+				}
+				if call, ok := rel.X.(*ssa.Call); ok && eng.Dominates(rm, call) && pm.removedOrigin(call, 0) {
+					return true
+				}
+			}
+		}
+		return false
+	}
+	// freedBy: the helper containing rm returns the bytes the removal freed: Size() where the
+	// removal was effective, the constant 0 elsewhere
+	freedBy := func(rm *ssa.Call) bool {
+		h := rm.Parent()
+		nSize, okAll := 0, true
+		eng.EachInstr(h, func(in ssa.Instruction) {
+			ret, ok := in.(*ssa.Return)
+			if !ok || in.Parent() != h {
+				return
+			}
+			res := eng.ReturnResults(ret)
+			if len(res) != 1 {
+				okAll = false
+				return
+			}
+			if k, isK := eng.ConstInt(eng.StripConv(res[0])); isK && k == 0 {
+				return
+			}
+			if isSizeCall(res[0]) && eng.Dominates(rm, ret) && successDominates(rm, ret.Block()) {
+				nSize++
+				return
+			}
+			okAll = false
+		})
+		return okAll && nSize > 0
+	}
 	for i, rm := range removes {
 		okSub := false
 		for _, sb := range subs {
 			if sb.Parent() != rm.Parent() || !eng.Dominates(rm, sb) {
 				continue
 			}
-			// success witness: sub's block dominated by a `x != nil` edge where x is the
-			// Remove result or the result of the removal helper fed by the removed element
-			for _, b := range rm.Parent().Blocks {
-				for k := 0; k < len(b.Succs) && len(b.Succs) == 2; k++ {
-					rel, ok := eng.EdgeRel(b, k)
-					if !ok || rel.Op != token.NEQ || !eng.IsNilConst(rel.Y) {
-						continue
-					}
-					if !eng.EdgeDominates(b, k, sb.Block()) {
-						continue
-					}
-					if rel.X == ssa.Value(rm) {
-						okSub = true
-					}
-					if call, ok := rel.X.(*ssa.Call); ok && eng.Dominates(rm, call) && pm.removedOrigin(call, 0) {
-						okSub = true
-					}
-				}
+			if successDominates(rm, sb.Block()) {
+				okSub = true
+			}
+		}
+		for _, sb := range helperSubs {
+			if call, ok := eng.StripConv(sb.Y).(*ssa.Call); ok && eng.StaticCallee(call.Common()) == rm.Parent() && rm.Parent() != E && freedBy(rm) {
+				okSub = true
 			}
 		}
 		_ = i
@@ -387,7 +450,7 @@ func (c *Ctx) c08Cap(pm *pairModel) {
 				continue
 			}
 			lx := eng.LenOf(rel.X)
-			if lx == nil || !eng.SameField(eng.LoadedField(lx), pm.memMsgs) || !eng.SameField(eng.LoadedField(eng.StripConv(p.Actual(eng.StripConv(rel.Y)))), fCap) {
+			if lx == nil || !eng.SameField(eng.LoadedField(lx), pm.memMsgs) || !isLoadOfThroughRecords(p, p.Actual(eng.StripConv(rel.Y)), fCap) {
 				continue
 			}
 			body := b.Succs[0]
@@ -604,15 +667,26 @@ func (c *Ctx) c08Cap(pm *pairModel) {
 				if a.store != "file" {
 					continue
 				}
-				eng.EachInstr(a.fn, func(in ssa.Instruction) {
-					call, ok := in.(*ssa.Call)
-					if !ok || !eng.Dominates(call, a.in) {
-						return
+				// the append may sit in a helper (commitMessage): then its only call site is
+				// what the cap loop has to precede
+				afn, at := a.fn, a.in
+				for depth := 0; depth < 3; depth++ {
+					eng.EachInstr(afn, func(in ssa.Instruction) {
+						call, ok := in.(*ssa.Call)
+						if !ok || !eng.Dominates(call, at) {
+							return
+						}
+						if g := eng.StaticCallee(call.Common()); g == fn || g != nil && eng.FuncPkgPath(g) == eng.FuncPkgPath(fn) && p.SyncReach(g)[fn] {
+							before = true
+						}
+					})
+					sites := p.StaticCallSites(afn)
+					if before || afn.Parent() != nil || len(sites) != 1 || len(p.CallersOf(afn)) != 1 {
+						break
 					}
-					if g := eng.StaticCallee(call.Common()); g == fn || g != nil && eng.FuncPkgPath(g) == eng.FuncPkgPath(fn) && p.SyncReach(g)[fn] {
-						before = true
-					}
-				})
+					at = sites[0].Instr.(ssa.Instruction)
+					afn = at.Parent()
+				}
 			}
 			if rmCall == nil {
 				// positional form: the body calls a helper that slices out messages[i] with the
